@@ -46,6 +46,7 @@ type FuncV struct {
 type KeyV struct {
 	Rank *Term // Real
 	Nil  *Term // Bool
+	Len  *Term // Int
 }
 
 // ---- path condition as persistent list ----
@@ -153,6 +154,7 @@ type Obligation struct {
 	Axioms  []*Term
 	BytesAxioms bool
 	shaped  bool
+	lifted  bool
 	// results
 	Verdict string // discharged / refuted / undecided
 	Backend string
@@ -195,6 +197,8 @@ type FCtx struct {
 	LockChecks    bool
 	LockSweep     bool
 	AutoLocks     bool
+	specAt        token.Pos // program point the spec clause being evaluated is attached to
+	AbsKeys       bool
 	inGlobalFact  bool
 	entry         *State
 	topBindings   *Bindings
@@ -340,6 +344,9 @@ func typeKey(t types.Type) string {
 type leafGen func(path string, t types.Type, s Sort) *Term
 
 func (c *FCtx) build(t types.Type, path string, gen leafGen, arr func(path string, a *types.Array) Value) Value {
+	if c.AbsKeys && (isInternalKeyType(t) || isByteSlice(t)) {
+		return c.buildKey(t, path, gen)
+	}
 	switch u := t.Underlying().(type) {
 	case *types.Basic:
 		if isString(t) {
@@ -370,6 +377,33 @@ func (c *FCtx) build(t types.Type, path string, gen leafGen, arr func(path strin
 
 // walkLeaves enumerates leaves of a value built by build (same order / paths).
 func (c *FCtx) walkLeaves(t types.Type, v Value, path string, f func(path string, t types.Type, leaf *Term)) {
+	if c.AbsKeys && (isInternalKeyType(t) || isByteSlice(t)) {
+		switch k := v.(type) {
+		case *IKeyV:
+			f(path+".urank", nil, k.U.Rank)
+			f(path+".unil", nil, k.U.Nil)
+			f(path+".ulen", nil, k.U.Len)
+			f(path+".num", types.Typ[types.Uint64], k.Num)
+			return
+		case *KeyV:
+			if isInternalKeyType(t) {
+				// a user key stored where an internal key is expected cannot happen in typed code
+				panic(outOfReach("user key stored as internal key at " + path))
+			}
+			f(path+".rank", nil, k.Rank)
+			f(path+".nil", nil, k.Nil)
+			f(path+".klen", nil, k.Len)
+			return
+		case *Term:
+			if k.IsConst() {
+				// nil key
+				z := c.nilKey(t)
+				c.walkLeaves(t, z, path, f)
+				return
+			}
+		}
+		panic(outOfReach("non-key value where an abstract key is expected at " + path))
+	}
 	switch u := t.Underlying().(type) {
 	case *types.Basic:
 		if isString(t) {
@@ -414,8 +448,21 @@ func (c *FCtx) walkLeaves(t types.Type, v Value, path string, f func(path string
 	}
 }
 
+// nilKey: the nil value of an abstracted key type.
+func (c *FCtx) nilKey(t types.Type) Value {
+	k := &KeyV{Rank: &Term{Op: "var", Name: "nilrank", Sort: SKey}, Nil: TTrue, Len: IntC(0)}
+	if isInternalKeyType(t) {
+		return &IKeyV{U: k, Num: IntC(0)}
+	}
+	return k
+}
+
 // freshValue creates an unconstrained value of type t and returns wf facts.
 func (c *FCtx) freshValue(t types.Type, base string) (Value, []*Term) {
+	if c.AbsKeys && (isInternalKeyType(t) || isByteSlice(t)) {
+		v := c.buildKey(t, base, func(path string, lt types.Type, s Sort) *Term { return c.freshVar(path, s) })
+		return v, c.keyFacts(v)
+	}
 	var facts []*Term
 	var slices []*SliceV
 	v := c.build(t, base, func(path string, lt types.Type, s Sort) *Term {
